@@ -4,7 +4,7 @@
 // the recency list `lru`, the `timeout` multimap, `size`, `triggers_count`, the four-index consistency, and the
 // process-wide shared-memory allocator (process_settings::process_memory) - none of it is re-implemented here.
 // time() is interposed: the cache reads the virtual clock below.  Global operator new/delete are replaced by counting
-// versions so that the heap footprint of a thread_shared cache can be compared before/after fill-clear cycles.
+// versions (exact requested bytes) so that the heap footprint of a thread_shared cache can be compared before/after fill-clear cycles.
 //
 // case line:   seq <backend> <limit> <t0> <op> <op> ...
 //   backend    t = thread_shared, p<KiB> = process_shared with that much shared memory (forked child per case: the
@@ -23,6 +23,37 @@
 //   <keys>/<triggers>/<hits>/<bad>/<keys after emptying>/<triggers after>/<free bytes after emptying>/<max chunk>  preceded by
 //   I:<free bytes before the first fill>/<max chunk>   (free bytes = -(bytes in in-use pages of the segment), resp.
 //   -(live heap bytes) for the thread back end; 1 = page headers do not tile; max chunk = max_available() or 0)
+//
+//              exh <KiB> <limit> <t0> <probe percent> <step> <step> ...
+//   allocator exhaustion INSIDE insertions on one process_shared cache (forked child), with the real buddy allocator's
+//   accounting read out.  Steps (one answer token each):
+//     M                          measure: M:<keys>/<triggers>:<bytes in in-use pages>:<total_free_memory>:<max_free_chunk>:
+//                                <free pages by header walk as offset.order,... | n<count>.<hash> when more than 24>:<flags | ok>
+//                                flags: tiling (headers do not tile), lists (free lists != free pages of the walk),
+//                                buddies (two free buddies of one order coexist), index-* (four-index consistency of the cache)
+//     H<size>:<keep>:<stride>    hog: shm malloc(<size>) until it returns null, then give back <keep> of the blocks, every
+//                                <stride>-th counted from the last one (a second tenant of the same segment); answers H<blocks held>
+//     U                          give back all hog blocks; answers U
+//     S:<klen>:<vlen>:<ntrig>:<tlo>-<thi>:<id>   store key K<id>_ padded with k to <klen> chars, value of <vlen> bytes, <ntrig>
+//                                triggers T<id>_<j>_ padded with t to tlo+(7j mod (thi-tlo+1)) chars; answers s<keys>/<triggers>
+//                                (s!<keys>/<triggers> when std::bad_alloc came out of store())
+//     F:<klen>:<vlen>:<id>       fetch that key: h1 (hit, value as stored) h0 (hit, wrong value) m
+//     D:<klen>:<id>              remove that key; answers d<keys>/<triggers>
+//     R:<tlo>-<thi>:<id>:<j>     rise of that trigger; answers r<keys>/<triggers>
+//     C                          clear(); answers c<keys>/<triggers>
+//     P                          probe: store + fetch + remove one value of <probe percent> % of the segment: P1 (came back intact)
+//                                P0 (refused: fetch missed) PX (wrong bytes)
+//
+//              inj <limit> <t0> <klen> <vlen> <ntrig> <tlo>-<thi> <kmax> <npre>
+//   failure injection on a thread_shared cache: for k = 1..kmax the cache is emptied, <npre> entries P<i>_ (key length klen, value
+//   of vlen bytes, one shared trigger A_ of length tlo) are stored, then the k-th allocation (operator new) during ONE store of
+//   key K<k>_ (same syntax as the S step of exh) throws std::bad_alloc.  One answer token per k:
+//   <fired 0|1>:<keys>/<triggers>:<fetch of the key: h1|h0|m>:<live heap bytes after clear() minus those of the empty cache>:<index flags|ok>
+//
+//              injf <limit> <t0> <klen> <vlen> <kmax>
+//   failure injection into fetch on a thread_shared cache holding three entries A B C (stored in that order): for k = 1..kmax the
+//   k-th allocation during fetch(A, value, triggers) throws.  One token per k:
+//   <fired 0|1>:<threw 0|1>:<hit h1|h0|m|->:<recency list, first letters, most recent first>:<index flags|ok>:<heap delta after clear()>
 #include <set>
 #include <map>
 #include <list>
@@ -47,12 +78,34 @@ static volatile unsigned long time_calls = 0;
 extern "C" time_t time(time_t *t) { time_calls++; if(t) *t = vnow; return vnow; }
 
 static long live_bytes = 0;
-void *operator new(size_t n) { void *p=malloc(n?n:1); if(!p) throw std::bad_alloc(); live_bytes+=malloc_usable_size(p); return p; }
-void *operator new[](size_t n) { void *p=malloc(n?n:1); if(!p) throw std::bad_alloc(); live_bytes+=malloc_usable_size(p); return p; }
-void operator delete(void *p) noexcept { if(p) { live_bytes-=malloc_usable_size(p); free(p); } }
-void operator delete[](void *p) noexcept { if(p) { live_bytes-=malloc_usable_size(p); free(p); } }
-void operator delete(void *p,size_t) noexcept { if(p) { live_bytes-=malloc_usable_size(p); free(p); } }
-void operator delete[](void *p,size_t) noexcept { if(p) { live_bytes-=malloc_usable_size(p); free(p); } }
+// failure injection for the thread_shared back end (std::allocator -> operator new): the fail_countdown-th allocation from now throws
+static volatile long fail_countdown = 0;
+static volatile bool fail_fired = false;
+static inline void maybe_fail() { if(fail_countdown>0 && --fail_countdown==0) { fail_fired=true; throw std::bad_alloc(); } }
+// exact accounting: the requested size is kept in a 16-byte header in front of every block (malloc_usable_size would make the balance
+// depend on how glibc happens to split its chunks: the same request can come back 16 bytes larger)
+static inline void *cnt_alloc(size_t n)
+{
+	maybe_fail();
+	char *p=static_cast<char *>(malloc(n+16));
+	if(!p) throw std::bad_alloc();
+	*reinterpret_cast<size_t *>(p)=n;
+	live_bytes+=long(n);
+	return p+16;
+}
+static inline void cnt_free(void *q)
+{
+	if(!q) return;
+	char *p=static_cast<char *>(q)-16;
+	live_bytes-=long(*reinterpret_cast<size_t *>(p));
+	free(p);
+}
+void *operator new(size_t n) { return cnt_alloc(n); }
+void *operator new[](size_t n) { return cnt_alloc(n); }
+void operator delete(void *p) noexcept { cnt_free(p); }
+void operator delete[](void *p) noexcept { cnt_free(p); }
+void operator delete(void *p,size_t) noexcept { cnt_free(p); }
+void operator delete[](void *p,size_t) noexcept { cnt_free(p); }
 
 typedef booster::intrusive_ptr<cppcms::impl::base_cache> cache_ptr;
 typedef cppcms::impl::mem_cache<cppcms::impl::thread_settings> tcache;
@@ -307,6 +360,220 @@ struct cyc_job {
 	}
 };
 
+
+// ---- allocator exhaustion inside insertions (exh) ----
+static std::string padded(char tag,unsigned id,long j,size_t len,char fill)
+{
+	char b[64];
+	if(j>=0) snprintf(b,sizeof(b),"%c%u_%ld_",tag,id,j); else snprintf(b,sizeof(b),"%c%u_",tag,id);
+	std::string r=b;
+	if(r.size()<len) r.append(len-r.size(),fill);
+	return r;
+}
+static size_t tlen_of(std::string const &spec,long j)
+{
+	size_t d=spec.find('-');
+	size_t lo=strtoul(spec.c_str(),0,10),hi= d==std::string::npos ? lo : strtoul(spec.c_str()+d+1,0,10);
+	if(hi<lo) hi=lo;
+	return lo+(size_t(j)*7)%(hi-lo+1);
+}
+struct exh_job {
+	std::vector<std::string> const *v; size_t kib; unsigned limit; unsigned pct;
+	static std::string measure(cache_ptr c,pcache *pc)
+	{
+		typedef cppcms::impl::buddy_allocator buddy;
+		unsigned k=~0u,t=~0u; c->stats(k,t);
+		buddy *b=shm()->memory_;
+		char *mem=b->memory();
+		std::string flags;
+		std::set<std::pair<size_t,int> > walk,lists;
+		size_t pos=0; long used=0; bool tiles=true;
+		while(b->memory_size_-pos >= 2*buddy::alignment) {
+			buddy::page *p=reinterpret_cast<buddy::page *>(mem+pos);
+			int bits=p->bits & 0xFF;
+			if((p->bits & ~0x1FF)!=0 || bits<=buddy::alignment_bits || bits>62 || pos+(size_t(1)<<bits)>b->memory_size_ || pos%(size_t(1)<<bits)!=0) { tiles=false; break; }
+			if(p->bits & 0x100) used+=long(1)<<bits; else walk.insert(std::make_pair(pos,bits));
+			pos+=size_t(1)<<bits;
+		}
+		if(!tiles) flags+="tiling,";
+		size_t guard=0;
+		for(int i=0;i<int(sizeof(void*)*8);i++)
+			for(buddy::page *p=b->free_list_[i];p && guard<(size_t(1)<<22);p=p->next,guard++)
+				lists.insert(std::make_pair(size_t(reinterpret_cast<char *>(p)-mem),i));
+		if(tiles && lists!=walk) flags+="lists,";
+		if(tiles) for(std::set<std::pair<size_t,int> >::iterator p=walk.begin();p!=walk.end();++p) {
+			size_t len=size_t(1)<<p->second, bo=p->first ^ len;
+			if(bo+len<=b->memory_size_ && walk.count(std::make_pair(bo,p->second))) { flags+="buddies,"; break; }
+		}
+		std::string cs=consistency(pc);
+		if(cs!="ok") flags+="index-"+cs;
+		std::ostringstream o;
+		o<<"M:"<<k<<"/"<<t<<":"<<used<<":"<<shm()->available()<<":"<<shm()->max_available()<<":";
+		if(walk.size()<=24) {
+			bool first=true;
+			for(std::set<std::pair<size_t,int> >::iterator p=walk.begin();p!=walk.end();++p) { if(!first) o<<","; first=false; o<<p->first<<"."<<p->second; }
+			if(first) o<<"-";
+		}
+		else {
+			unsigned long long h=14695981039346656037ULL;
+			for(std::set<std::pair<size_t,int> >::iterator p=walk.begin();p!=walk.end();++p) { h^=p->first*64+p->second; h*=1099511628211ULL; }
+			o<<"n"<<walk.size()<<"."<<std::hex<<h<<std::dec;
+		}
+		o<<":"<<(flags.empty() ? "ok" : flags);
+		return o.str();
+	}
+	std::string operator()() const {
+		cache_ptr c=cppcms::impl::process_cache_factory(kib*1024,limit);
+		pcache *pc=static_cast<pcache *>(c.get());
+		std::vector<void *> hogs;
+		std::string out;
+		for(size_t i=5;i<v->size();i++) {
+			std::string const &st=(*v)[i];
+			std::vector<std::string> f=splitc(st,':');
+			if(i>5) out+=' ';
+			char buf[96];
+			unsigned k=0,t=0;
+			if(st=="M") out+=measure(c,pc);
+			else if(st[0]=='H' && f.size()==3) {
+				size_t sz=strtoul(f[0].c_str()+1,0,10),keep=strtoul(f[1].c_str(),0,10),stride=strtoul(f[2].c_str(),0,10);
+				if(stride<1) stride=1;
+				for(;;) { void *p=shm()->malloc(sz); if(!p) break; hogs.push_back(p); if(hogs.size()>(size_t(1)<<22)) break; }
+				size_t n=hogs.size();
+				for(size_t j=0;j<keep && j*stride<n;j++) { void *&p=hogs[n-1-j*stride]; shm()->free(p); p=0; }
+				size_t held=0; for(size_t j=0;j<hogs.size();j++) if(hogs[j]) held++;
+				snprintf(buf,sizeof(buf),"H%zu",held); out+=buf;
+			}
+			else if(st=="U") { for(size_t j=0;j<hogs.size();j++) if(hogs[j]) shm()->free(hogs[j]); hogs.clear(); out+="U"; }
+			else if(st[0]=='S' && f.size()==6) {
+				unsigned id=strtoul(f[5].c_str(),0,10);
+				std::string key=padded('K',id,-1,strtoul(f[1].c_str(),0,10),'k');
+				std::string val(strtoul(f[2].c_str(),0,10),char('a'+id%26));
+				std::set<std::string> tr;
+				long nt=strtol(f[3].c_str(),0,10);
+				for(long j=0;j<nt;j++) tr.insert(padded('T',id,j,tlen_of(f[4],j),'t'));
+				bool threw=false;
+				try { c->store(key,val,tr,vnow+1000); } catch(std::bad_alloc const &) { threw=true; }
+				c->stats(k,t); snprintf(buf,sizeof(buf),"s%s%u/%u",threw?"!":"",k,t); out+=buf;
+			}
+			else if(st[0]=='F' && f.size()==4) {
+				unsigned id=strtoul(f[3].c_str(),0,10);
+				std::string key=padded('K',id,-1,strtoul(f[1].c_str(),0,10),'k'),val;
+				if(!c->fetch(key,val,0)) out+="m";
+				else out+= val==std::string(strtoul(f[2].c_str(),0,10),char('a'+id%26)) ? "h1" : "h0";
+			}
+			else if(st[0]=='D' && f.size()==3) {
+				c->remove(padded('K',strtoul(f[2].c_str(),0,10),-1,strtoul(f[1].c_str(),0,10),'k'));
+				c->stats(k,t); snprintf(buf,sizeof(buf),"d%u/%u",k,t); out+=buf;
+			}
+			else if(st[0]=='R' && f.size()==4) {
+				long j=strtol(f[3].c_str(),0,10);
+				c->rise(padded('T',strtoul(f[2].c_str(),0,10),j,tlen_of(f[1],j),'t'));
+				c->stats(k,t); snprintf(buf,sizeof(buf),"r%u/%u",k,t); out+=buf;
+			}
+			else if(st=="C") {
+				bool threw=false;
+				try { c->clear(); } catch(std::bad_alloc const &) { threw=true; }
+				c->stats(k,t); snprintf(buf,sizeof(buf),"c%s%u/%u",threw?"!":"",k,t); out+=buf;
+			}
+			else if(st=="P") {
+				std::string val(kib*1024*pct/100,'p'),back;
+				std::set<std::string> none;
+				c->store("probe",val,none,vnow+1000);
+				bool hit=c->fetch("probe",back,0);
+				c->remove("probe");
+				out+= !hit ? "P0" : back==val ? "P1" : "PX";
+			}
+			else out+="BAD-STEP";
+		}
+		return out;
+	}
+};
+
+
+struct inj_job {
+	unsigned limit; size_t klen,vlen; long nt; std::string tspec; unsigned kmax,npre;
+	std::string operator()() const {
+		cache_ptr c=cppcms::impl::thread_cache_factory(limit);
+		tcache *tc=static_cast<tcache *>(c.get());
+		c->clear();
+		// no heap allocation of the harness may survive a round: answers go to a static buffer
+		static char outbuf[1<<20];
+		size_t off=0;
+		long base=0;
+		for(unsigned k=0;k<=kmax;k++) {
+			unsigned ks=0,ts=0;
+			bool fired=false;
+			char const *fetched="m";
+			char cs[200];
+			{
+				for(unsigned i=0;i<npre;i++) {
+					std::set<std::string> tr; tr.insert(padded('A',0,-1,tlen_of(tspec,0),'t'));
+					c->store(padded('P',i,-1,klen,'k'),std::string(vlen,char('a'+i%26)),tr,vnow+1000);
+				}
+				std::string key=padded('K',k,-1,klen,'k');
+				std::string val(vlen,char('a'+k%26)),back;
+				std::set<std::string> tr;
+				for(long j=0;j<nt;j++) tr.insert(padded('T',k,j,tlen_of(tspec,j),'t'));
+				if(k>0) {
+					fail_fired=false; fail_countdown=k;
+					c->store(key,val,tr,vnow+1000);
+					fail_countdown=0; fired=fail_fired;
+				}
+				c->stats(ks,ts);
+				snprintf(cs,sizeof(cs),"%s",consistency(tc).c_str());
+				if(c->fetch(key,back,0)) fetched = back==val ? "h1" : "h0";
+				c->clear();
+			}
+			if(k==0) { base=live_bytes; continue; }
+			if(off+400<sizeof(outbuf))
+				off+=snprintf(outbuf+off,sizeof(outbuf)-off,"%s%d:%u/%u:%s:%ld:%s",off?" ":"",fired?1:0,ks,ts,fetched,live_bytes-base,cs);
+		}
+		return std::string(outbuf,off);
+	}
+};
+
+
+struct injf_job {
+	unsigned limit; size_t klen,vlen; unsigned kmax;
+	std::string operator()() const {
+		cache_ptr c=cppcms::impl::thread_cache_factory(limit);
+		tcache *tc=static_cast<tcache *>(c.get());
+		c->clear();
+		static char outbuf[1<<18];
+		size_t off=0;
+		long base=0;
+		for(unsigned k=0;k<=kmax;k++) {
+			bool fired=false,threw=false;
+			char const *fetched="-";
+			char cs[200],order[16];
+			{
+				for(unsigned i=0;i<3;i++) {
+					std::set<std::string> tr; tr.insert(padded('T',i,-1,klen,'t'));
+					c->store(padded(char('A'+i),0,-1,klen,'k'),std::string(vlen,char('a'+i)),tr,vnow+1000);
+				}
+				std::string key=padded('A',0,-1,klen,'k'),back;
+				std::set<std::string> tr;
+				if(k>0) {
+					fail_fired=false; fail_countdown=k;
+					try { bool hit=c->fetch(key,&back,&tr,0,0); fail_countdown=0; fetched = !hit ? "m" : back==std::string(vlen,'a') ? "h1" : "h0"; }
+					catch(std::bad_alloc const &) { fail_countdown=0; threw=true; }
+					fired=fail_fired;
+				}
+				snprintf(cs,sizeof(cs),"%s",consistency(tc).c_str());
+				size_t n=0;
+				for(tcache::pointer_list_type::iterator p=tc->lru.begin();p!=tc->lru.end() && n<8;++p) order[n++]=(*p)->first.c_str()[0];
+				order[n]=0;
+				if(strcmp(cs,"ok")==0) c->clear();	// a broken recency list makes clear()/remove() walk freed memory: stop here
+				else { if(off+400<sizeof(outbuf)) off+=snprintf(outbuf+off,sizeof(outbuf)-off,"%s%d:%d:%s:%s:%s:0",off?" ":"",fired?1:0,threw?1:0,fetched,order,cs); break; }
+			}
+			if(k==0) { base=live_bytes; continue; }
+			if(off+400<sizeof(outbuf))
+				off+=snprintf(outbuf+off,sizeof(outbuf)-off,"%s%d:%d:%s:%s:%s:%ld",off?" ":"",fired?1:0,threw?1:0,fetched,order,cs,live_bytes-base);
+		}
+		return std::string(outbuf,off);
+	}
+};
+
 static bool self_test()
 {
 	// the cache must read our clock: deadline == now hits, deadline == now-1 misses, and a far clock misses
@@ -349,6 +616,31 @@ int main(int argc,char **argv)
 			j.limit=strtoul(v[2].c_str(),0,10); j.vsz=strtoul(v[3].c_str(),0,10);
 			j.n=strtoul(v[4].c_str(),0,10); j.cycles=strtoul(v[5].c_str(),0,10);
 			vnow=strtoll(v[6].c_str(),0,10); j.how=v[7][0];
+			out=in_child(j);
+		}
+		else if(v.size()==6 && v[0]=="injf") {
+			injf_job j; j.limit=strtoul(v[1].c_str(),0,10); vnow=strtoll(v[2].c_str(),0,10);
+			j.klen=strtoul(v[3].c_str(),0,10); j.vlen=strtoul(v[4].c_str(),0,10); j.kmax=strtoul(v[5].c_str(),0,10);
+			out=in_child(j);
+		}
+		else if(v.size()==9 && v[0]=="inj") {
+			inj_job j; j.limit=strtoul(v[1].c_str(),0,10); vnow=strtoll(v[2].c_str(),0,10);
+			j.klen=strtoul(v[3].c_str(),0,10); j.vlen=strtoul(v[4].c_str(),0,10); j.nt=strtol(v[5].c_str(),0,10); j.tspec=v[6];
+			j.kmax=strtoul(v[7].c_str(),0,10); j.npre=strtoul(v[8].c_str(),0,10);
+			out=in_child(j);
+		}
+		else if(v.size()==2 && v[0]=="exh" && v[1]=="consts") {
+			// sizes the resource model (coq/C08/ResDefs.v) uses: sso object node-primary node-triggers list-node list-node-triggers rb-node bucket
+			std::ostringstream o;
+			o<<pcache::string_type().capacity()<<" "<<sizeof(pcache)<<" "<<sizeof(pcache::map_type::impl_type::container)<<" "
+			 <<sizeof(pcache::triggers_map_type::impl_type::container)<<" "<<sizeof(std::_List_node<pcache::pointer>)<<" "
+			 <<sizeof(std::_List_node<pcache::trigger_ptr_type>)<<" "<<sizeof(std::_Rb_tree_node<std::pair<const time_t,pcache::pointer> >)<<" "
+			 <<sizeof(pcache::map_type::impl_type::range_type);
+			out=o.str();
+		}
+		else if(v.size()>=6 && v[0]=="exh") {
+			exh_job j; j.v=&v; j.kib=strtoul(v[1].c_str(),0,10); j.limit=strtoul(v[2].c_str(),0,10);
+			vnow=strtoll(v[3].c_str(),0,10); j.pct=strtoul(v[4].c_str(),0,10);
 			out=in_child(j);
 		}
 		else out="BAD-CASE";
